@@ -78,6 +78,7 @@ ObsInit == [
   \* ---- lifecycle ------------------------------------------------------------
   phase    |-> "init",                    \* position in the bracket grammar of lifecycle callbacks (C11)
   auto     |-> FALSE,                     \* automatic checkpointing (final save in Close)
+  readonly |-> FALSE,                     \* metadata.readOnly: nothing may be written, so nothing becomes durable (C02)
   finite   |-> FALSE,                     \* dcp.mode finite
   latest   |-> FALSE,                     \* checkpoint.autoReset = latest
   minfo    |-> <<1, 1>>,                  \* membership most recently announced
@@ -121,7 +122,7 @@ Unconfirmed(o) == {v \in VB : o.adv[v] > o.conf[v]}
 (* one clause per observable event                                          *)
 
 ApBoot(o, e) ==
-  [o EXCEPT !.phase = "init", !.auto = e.auto, !.finite = e.finite, !.minfo = <<e.member, e.total>>, !.nbursts = 0, !.ncycles = 0,
+  [o EXCEPT !.phase = "init", !.auto = e.auto, !.readonly = e.readonly, !.finite = e.finite, !.minfo = <<e.member, e.total>>, !.nbursts = 0, !.ncycles = 0,
             !.burstOpen = FALSE, !.ended = {}, !.reopen = {}, !.closeCalled = FALSE, !.closeReturned = FALSE,
             !.stoppedSeen = FALSE, !.closereq = {}, !.high = [v \in VB |-> 0 - 1], !.nreb = 0,
             !.kcnt = [v \in VB |-> <<0, 0, 0>>], !.lastdoc = [v \in VB |-> ""],
@@ -364,7 +365,8 @@ ApSaveBegin(o, e) ==
 ApStoreWrite(o, e) ==
   LET v == e.vb
       s == SaveOf(o, e.t)
-      o1 == [o EXCEPT !.store[v] = e.off]
+      o0 == Check(o, ~o.readonly, "C02", "a checkpoint was written in read-only metadata mode")
+      o1 == [o0 EXCEPT !.store[v] = e.off]
       o2 == Check(o1, HasSave(o, e.t) /\ s.begun /\ e.off.seq \in s.valid[v],
                   "C01", "durable checkpoint names a position that was not settled before the write began")
       o3 == IF HasSave(o, e.t) /\ s.idle
@@ -386,7 +388,7 @@ ApSaveRet(o, e) ==
   LET s == SaveOf(o, e.t)
       o1 == [o EXCEPT !.saves = {x \in @ : x.t # e.t}]
       lost == {v \in VB : s.need[v] >= 0 /\ StoreSeq(o, v) < s.need[v]}
-  IN  IF s.failed THEN o1
+  IN  IF s.failed \/ o.readonly THEN o1
       ELSE Check(o1, lost = {}, "C05", "save completed but a position settled before it began is not stored")
 
 
@@ -463,7 +465,7 @@ ApCloseReturn(o, e) ==
   LET lost == {v \in VB : o.needClose[v] >= 0 /\ StoreSeq(o, v) < o.needClose[v]}
       open_ == {v \in VB : o.streaming[v] /\ v \notin o.closereq}
       o1 == [o EXCEPT !.closeReturned = TRUE]
-      o2 == Check(o1, lost = {}, "C13", "Close() returned but a position settled before the call is not stored")
+      o2 == Check(o1, lost = {} \/ o.readonly, "C13", "Close() returned but a position settled before the call is not stored")
   IN  Check(o2, open_ = {}, "C13", "Close() returned but a vBucket stream was never closed")
 
 \* a scrape of the metrics endpoint returned e (C16)
@@ -543,6 +545,7 @@ Apply(o, e) ==
     [] e.ev = "CloseReturn" -> ApCloseReturn(o, e)
     [] e.ev = "Quiesced"   -> ApQuiesced(o, e)
     [] e.ev = "Scrape"     -> ApScrape(o, e)
+    [] e.ev = "HookScrape" -> Check(o, e.ok, "C16", "a scrape issued from a lifecycle callback crashed or did not return")
     [] e.ev = "Load"       -> ApLoad(o, e)
     [] e.ev = "OpenReq"    -> ApOpenReq(o, e)
     [] e.ev = "OpenRet"    -> ApOpenRet(o, e)
